@@ -29,7 +29,7 @@ EXPLANATION = (
 )
 NOT_DECIDED = ["actual thread interleavings; identical results under concurrency", "state kept inside third-party libraries (pypdf caches, mimetypes database)"]
 TRUSTED = ["a `with lock:` block around save/patch/use/restore serialises the critical section", "functools.lru_cache keys on all arguments"]
-FLOORS = {"C15-GLOBAL": 8, "C15-PATCH": 2, "C15-KEY": 2, "C15-SHARED": 1, "C15-RES": 20}
+FLOORS = {"C15-SETTERS": 2, "C15-HOLD": 1, "C15-GLOBAL": 8, "C15-PATCH": 2, "C15-KEY": 2, "C15-SHARED": 1, "C15-RES": 20}
 
 # (module rel, name) -> reason it is allowed
 GLOBAL_INVENTORY = {
@@ -459,4 +459,97 @@ def rule_res(ctx: Ctx) -> RuleReport:
     return rep
 
 
-RULES = [rule_global, rule_patch, rule_key, rule_shared, rule_res]
+# process-wide settings of the interpreter / standard library: calling one of these changes the behaviour of every other extraction
+# running or yet to run in the process (and restoring "the previous value" is itself racy)
+PROCESS_SETTERS = {
+    "sys.setrecursionlimit", "sys.setswitchinterval", "sys.settrace", "sys.setprofile", "sys.set_int_max_str_digits",
+    "locale.setlocale", "socket.setdefaulttimeout", "warnings.simplefilter", "warnings.filterwarnings", "warnings.resetwarnings",
+    "logging.disable", "logging.basicConfig", "logging.setLoggerClass", "mimetypes.add_type", "mimetypes.init", "os.chdir", "os.umask", "os.putenv",
+    "os.unsetenv", "gc.disable", "gc.enable", "gc.set_threshold", "decimal.setcontext", "random.seed", "tempfile.tempdir", "signal.signal",
+    "signal.alarm", "faulthandler.enable", "csv.field_size_limit", "xml.etree.ElementTree.register_namespace", "ET.register_namespace",
+    "codecs.register", "codecs.register_error", "importlib.reload", "atexit.register", "threading.setprofile", "threading.settrace",
+    "resource.setrlimit", "time.tzset",
+}
+
+
+def rule_setters(ctx: Ctx) -> RuleReport:
+    rep = RuleReport("C15-SETTERS", "no extraction code changes a process-wide setting of the interpreter or the standard library")
+    n_fn = 0
+    for fi in ctx.p.all_functions():
+        if "/tests/" in fi.module.rel or fi.module.rel.startswith("sharepoint2text/sharepoint_io/") or fi.module.rel == "sharepoint2text/cli.py":
+            continue
+        n_fn += 1
+        hit = None
+        for c in calls_in(fi):
+            d = dotted(c.func) or ""
+            t = resolve_call(ctx.p, fi, c)
+            ext = t.external or d
+            if d in PROCESS_SETTERS or ext in PROCESS_SETTERS:
+                hit = (c, ext if ext in PROCESS_SETTERS else d)
+                break
+        for n in walk_own(fi.node):
+            if isinstance(n, (ast.Assign, ast.AugAssign, ast.Delete)):
+                tg = n.targets if isinstance(n, (ast.Assign, ast.Delete)) else [n.target]
+                for t_ in tg:
+                    base = t_.value if isinstance(t_, ast.Subscript) else t_
+                    if (dotted(base) or "") in ("os.environ", "sys.path", "sys.modules", "tempfile.tempdir", "sys.stdout", "sys.stderr", "sys.stdin"):
+                        hit = hit or (n, dotted(base))
+            if isinstance(n, ast.Call) and isinstance(n.func, ast.Attribute) and n.func.attr in ("update", "setdefault", "pop", "clear", "append", "insert", "extend", "remove") and (dotted(n.func.value) or "") in ("os.environ", "sys.path", "sys.modules"):
+                hit = hit or (n, dotted(n.func.value))
+        if hit is None:
+            continue
+        node, what = hit
+        rep.unit(fi.key)
+        rep.fail(Finding("C15-SETTERS", fi.module.rel, fi.qual, f"{what}: {short(node, 60)}",
+                         f"`{short(node, 50)}` changes a process-wide setting ({what}): while it is in force every other extraction in the process behaves differently, and two overlapping calls leave the changed value behind (each restores what it saw)", line=getattr(node, "lineno", None)))
+    for _ in range(1):
+        rep.ok({"functions_scanned": n_fn, "process_wide_setters_called": 0} if not rep.findings else None)
+    if n_fn < 400:
+        raise AnalysisError(f"C15-SETTERS: only {n_fn} functions scanned (400 confirmed)")
+    # the recogniser is exercised on every run: it must see the setter in a positive example
+    probe = ast.parse("import sys\ndef f():\n    sys.setrecursionlimit(10)\n").body[1]
+    if not any(isinstance(c, ast.Call) and (dotted(c.func) or "") in PROCESS_SETTERS for c in ast.walk(probe)):
+        raise AnalysisError("C15-SETTERS: recogniser probe failed")
+    rep.ok({"recogniser_probe": "sys.setrecursionlimit(10) recognised"})
+    return rep
+
+
+def rule_hold(ctx: Ctx) -> RuleReport:
+    """A generator that yields to its caller while the library patch (and its lock) is in force keeps the process patched for as long
+    as the caller cares to hold the result - other threads block or, with interleaved consumers, the restore order breaks."""
+    rep = RuleReport("C15-HOLD", "no generator yields to its caller inside the pypdf patch context or while holding a module-level lock")
+    patchers = {f.qual for f in ctx.p.all_functions() if any((dotted(d) or "").endswith("contextmanager") for d in f.node.decorator_list)
+                and _foreign_stores(ctx, f)}
+    if not patchers:
+        raise AnalysisError("C15-HOLD: the patching context manager (a @contextmanager that stores into a foreign module) was not found")
+    n_with = 0
+    for fi in ctx.p.all_functions():
+        if "/tests/" in fi.module.rel:
+            continue
+        locks = {nm for nm, v in fi.module.assigns.items() if isinstance(v, ast.Call) and (dotted(v.func) or "").split(".")[-1] in ("Lock", "RLock")}
+        for w in [n for n in walk_own(fi.node) if isinstance(n, ast.With)]:
+            held = []
+            for it in w.items:
+                ce = it.context_expr
+                if isinstance(ce, ast.Call) and (dotted(ce.func) or "").split(".")[-1] in patchers:
+                    held.append(dotted(ce.func))
+                if isinstance(ce, ast.Name) and ce.id in locks:
+                    held.append(ce.id)
+            if not held:
+                continue
+            n_with += 1
+            if fi.qual in patchers:
+                continue  # the context manager's own `yield` is the protocol, checked by C15-PATCH
+            ys = [y for st in w.body for y in ast.walk(st) if isinstance(y, (ast.Yield, ast.YieldFrom))]
+            rep.unit(fi.key)
+            if ys:
+                rep.fail(Finding("C15-HOLD", fi.module.rel, fi.qual, f"with {', '.join(held)}: {short(ys[0], 50)}",
+                                 f"`{short(ys[0], 40)}` hands control to the caller while {', '.join(held)} is active: the third-party library stays patched (and the lock held) until the caller resumes the generator, so concurrent or interleaved extractions block or restore in the wrong order", line=ys[0].lineno))
+            else:
+                rep.ok({"fn": fi.qual, "with": held, "yields_inside": 0})
+    if n_with < 2:
+        raise AnalysisError(f"C15-HOLD: only {n_with} uses of the patch context / lock found (2 confirmed)")
+    return rep
+
+
+RULES = [rule_setters, rule_hold, rule_global, rule_patch, rule_key, rule_shared, rule_res]
